@@ -9,6 +9,43 @@ from ..comp import CompScenario
 STAGES = ["Forwarder", "Pipe", "BasicFifo", "FIFO", "Connect"]
 
 
+class PeekStub:
+    """Two (or three) hand-written transactions around the first component of a chain: one peeks it, one writes
+    it, and they are in one conflict component through a shared exclusive method (directly, or through a third
+    transaction that shares one method with each) - the peeker defined before or after the writer."""
+
+    def __init__(self, comp, shared, shared2, spec, sigs):
+        self.comp, self.shared, self.shared2, self.spec, self.sigs = comp, shared, shared2, spec, sigs
+
+    def elaborate(self, platform):
+        from transactron import TModule, Transaction
+
+        m = TModule()
+        sp, sg = self.spec, self.sigs
+
+        def peeker():
+            with Transaction(name="peeker").body(m, ready=sg["peek"]):
+                self.shared.iface(m)
+                m.d.comb += sg["peeked"].eq(self.comp.peek(m).d)
+
+        def writer():
+            with Transaction(name="writer").body(m, ready=sg["write"]):
+                (self.shared2 if sp["via"] == "chain" else self.shared).iface(m)
+                self.comp.write(m, d=sg["data"])
+
+        def third():
+            with Transaction(name="third").body(m, ready=sg["third"]):
+                self.shared.iface(m)
+                self.shared2.iface(m)
+
+        parts = [peeker, writer] if sp["order"] == "first" else [writer, peeker]
+        if sp["via"] == "chain":
+            parts.insert(sp.get("third_at", 1), third)
+        for f in parts:
+            f()
+        return m
+
+
 class LibScen(CompScenario):
     check_netlist = True
     lenient_callers = True
@@ -36,7 +73,26 @@ class LibScen(CompScenario):
                 self.top.add(f"ct{n}", ConnectTrans.create(a.read, b.write))
                 n += 1
             chains.append(comps)
+        peek = c.get("peek")
         for k, comps in enumerate(chains):
+            if peek and peek["chain"] == k and c["chains"][k][0] in ("Forwarder", "Pipe", "BasicFifo"):
+                from amaranth import Elaboratable, Signal
+                from transactron.lib import Adapter
+
+                sigs = {"peek": Signal(name="p_peek"), "write": Signal(name="p_write"), "third": Signal(name="p_third"),
+                        "data": Signal(8, name="p_data"), "peeked": Signal(8, name="p_peeked")}
+                for nm in ("peek", "write", "third", "data"):
+                    self.add_input(f"pk.{nm}", sigs[nm])
+                self.add_obs("pk.peeked", sigs["peeked"])
+                shared, shared2 = Adapter(name="shared"), Adapter(name="shared2")
+                for nm, ad in (("shared", shared), ("shared2", shared2)):
+                    self.top.add(nm, ad)
+                    self.add_input(f"{nm}.en", ad.en)
+                    self.add_obs(f"{nm}.done", ad.done)
+                stub = type("PeekStubE", (PeekStub, Elaboratable), {})(comps[0], shared, shared2, peek, sigs)
+                self.top.add("peekstub", stub)
+                self.hit("libcomp_peeker_conflicting_with_writer")
+                continue
             self.caller(f"src{k}", comps[0].write)
         if c["join"] == "collector" and len(chains) > 1:
             col = Collector.create([comps[-1].read for comps in chains])
@@ -74,5 +130,13 @@ class LibScen(CompScenario):
 def gen_lib_config(rng):
     nch = rng.choice([1, 1, 2, 3])
     chains = [[rng.choice(STAGES) for _ in range(rng.randint(1, 4))] for _ in range(nch)]
-    return {"kind": "libcomp", "chains": chains, "join": rng.choice(["none", "collector", "product"]), "sched": "eager",
-            "cycles": rng.randint(20, 60)}
+    cfg = {"kind": "libcomp", "chains": chains, "join": rng.choice(["none", "collector", "product"]), "sched": "eager",
+           "cycles": rng.randint(20, 60)}
+    if rng.random() < 0.4:
+        # peek users: a peeking and a writing transaction of the first component in one conflict component
+        k = rng.randrange(nch)
+        if chains[k][0] in ("FIFO", "Connect") and rng.random() < 0.8:
+            chains[k][0] = rng.choice(["Forwarder", "Forwarder", "Pipe", "BasicFifo"])
+        cfg["peek"] = {"chain": k, "order": rng.choice(["first", "last"]), "via": rng.choice(["direct", "chain"]),
+                       "third_at": rng.randrange(3)}
+    return cfg
